@@ -47,7 +47,8 @@ def main(argv):
         ctx = Ctx(case)
         hooks.reset_case()
         t0 = time.time()
-        signal.alarm(int(case.get("timeout", default_to)))
+        # repeating: if a timeout raised inside library code is swallowed there (bare except), it is raised again
+        signal.setitimer(signal.ITIMER_REAL, int(case.get("timeout", default_to)), 15)
         try:
             mod.run_case(case, ctx)
         except LibRaised:
@@ -61,7 +62,7 @@ def main(argv):
         except Exception:
             ctx.inconclusive("harness-error: " + traceback.format_exc()[-3000:])
         finally:
-            signal.alarm(0)
+            signal.setitimer(signal.ITIMER_REAL, 0)
         for rep in hooks.take_reports():
             ctx.violations.append(rep)
         for me in hooks.take_monitor_errors():
